@@ -1,14 +1,14 @@
 #!/bin/bash
-# usage: tools/seeded_matrix.sh [id…]   (default: every /verif/seeded/<id>)
+# usage: tools/seeded_matrix.sh [id…]   (default: every $V/seeded/<id>)
 # For every seeded change: does its patch still apply to /repo's working tree, and does the registered check of its
 # property (quick tier, then thorough if quick stays silent) report a violation against a scratch copy with the
 # change applied? Prints one line per change; nothing under /verif/evidence or /verif/replays is touched.
-cd /verif
+V=$(cd "$(dirname "$0")/.." && pwd); cd "$V"
 ids=("$@"); [ ${#ids[@]} -eq 0 ] && ids=($(ls seeded | grep -E '^C[0-9]{2}[a-z]$'))
 for id in "${ids[@]}"; do
-  p=${id:0:3}; patch=/verif/seeded/$id/patch.diff
+  p=${id:0:3}; patch=$V/seeded/$id/patch.diff
   # a change whose original patch no longer applies after later repairs is kept rebased next to the original
-  [ -f /verif/seeded/$id/patch.rebased.diff ] && patch=/verif/seeded/$id/patch.rebased.diff
+  [ -f $V/seeded/$id/patch.rebased.diff ] && patch=$V/seeded/$id/patch.rebased.diff
   if ! git -C /repo apply --check "$patch" 2>/dev/null; then echo "$id patch-does-not-apply-to-current-tree"; continue; fi
   res=silent
   for tier in quick thorough; do
